@@ -238,6 +238,12 @@ func (c *Ctx) writeEvidence() error {
 		hits = []string{}
 	}
 	cov["known_findings_reproduced"] = hits
+	if c.assumptions == nil {
+		c.assumptions = []string{}
+	}
+	if c.samples == nil {
+		c.samples = []any{}
+	}
 	ev := map[string]any{
 		"property_id": c.ID, "tier": c.Tier, "seed": c.Seed, "level": c.Level,
 		"coverage": cov, "assumptions": c.assumptions,
